@@ -684,6 +684,7 @@ int main(int argc, char **argv)
 	GM.mem_ops = argu(argc, argv, "mem", 1);
 	GM.t0_events = argu(argc, argv, "t0", 0);
 	GM.lib = argu(argc, argv, "lib", 0);
+	GM.live = argu(argc, argv, "live", 0);
 	GM.skew = argu(argc, argv, "skew", 0);
 	unsigned threads = argu(argc, argv, "threads", 2);
 	unsigned ckpt = argu(argc, argv, "ckpt", 3);
@@ -709,6 +710,11 @@ int main(int argc, char **argv)
 		RE("model ok");
 		OP("period %llu", (unsigned long long)vperiod);
 		RE("period");
+		if(mode_par && argu(argc, argv, "tw", 0)) {
+			/* ask the re-execution to step the abstract global Time Warp machine alongside (single rank only) */
+			OP("twshadow");
+			RE("twshadow ok");
+		}
 	}
 
 	struct simulation_configuration conf = {.lps = GM.n_lps,
@@ -734,6 +740,7 @@ int main(int argc, char **argv)
 	fm_max_age = (unsigned)argu(argc, argv, "page", 40);
 	fm_cancel_span = (unsigned)argu(argc, argv, "pspan", 400);
 	fm_window = (unsigned)argu(argc, argv, "pwin", 24);
+	fm_late_burst = (unsigned)argu(argc, argv, "plate", 6);
 	fm_ntypes = GM.n_types;
 #else
 	if(mode_dist || mode_rank)
